@@ -251,6 +251,7 @@ func c08Eval(r *harness.Run, entries []c08Entry, scope string, opt bool, sw map[
 	}
 	var tables []tab
 	hasTable, hasInline := false, false
+	var refs []string // labels that label-form entries name and the statement does not define itself
 	for i, e := range entries {
 		T := fmt.Sprintf("T%d", i)
 		switch e.kind {
@@ -264,9 +265,13 @@ func c08Eval(r *harness.Run, entries []c08Entry, scope string, opt bool, sw map[
 					break
 				}
 			}
+			if target == fmt.Sprintf("L%d", i) {
+				refs = append(refs, target)
+			}
 			sb.WriteString("\t" + T + ": " + target + "\n")
 			headPlain = append(headPlain, "\tmap_script "+T+", "+target)
 		case 0:
+			refs = append(refs, "L"+fmt.Sprint(i))
 			sb.WriteString("\t" + T + ": L" + fmt.Sprint(i) + "\n")
 			headPlain = append(headPlain, "\tmap_script "+T+", L"+fmt.Sprint(i))
 		case 1:
@@ -296,6 +301,7 @@ func c08Eval(r *harness.Run, entries []c08Entry, scope string, opt bool, sw map[
 					after = append(after, inl{name, body})
 					hasInline = true
 				} else {
+					refs = append(refs, fmt.Sprintf("LT%d_%d", i, j))
 					sb.WriteString(fmt.Sprintf("\t\t%s, %s: LT%d_%d\n", v, n, i, j))
 					tb.lines = append(tb.lines, fmt.Sprintf("\tmap_script_2 %s, %s, LT%d_%d", ev, en, i, j))
 				}
@@ -348,6 +354,46 @@ func c08Eval(r *harness.Run, entries []c08Entry, scope string, opt bool, sw map[
 		// (layout is independent of the optimizer: one setting suffices)
 	} else if tight := comp.Compile(tightLayout(src), o); tight.Err != nil || tight.Panic != "" || tight.Out != res.Out {
 		fail("C08:tight-layout", fmt.Sprintf("the statement written without dispensable white space gives another result (%v %s): %s", tight.Err, firstLine(tight.Panic), firstDiff(tight.Out, res.Out)))
+	}
+	// the labels that label-form entries name may be label statements of a script of the same file (alternately plain and
+	// global): naming a label is not defining it, so the file is accepted and the statement's output stays as it is
+	if opt && len(refs) > 0 {
+		ext := "script Ext {\n"
+		for i, l := range refs {
+			if i%2 == 0 {
+				ext += "\t" + l + ":\n\tx" + fmt.Sprint(i) + "\n"
+			} else {
+				ext += "\t" + l + "(global):\n\tx" + fmt.Sprint(i) + "\n"
+			}
+		}
+		ext += "}\n"
+		orders := []string{src + ext, ext + src}
+		for _, both := range orders[len(src)%2 : len(src)%2+1] { // the other script after / before the statement, alternating
+			r2 := comp.Compile(both, o)
+			if r2.Err != nil || r2.Panic != "" {
+				fail("C08:label-entry-target-defined:"+firstWords(fmt.Sprint(r2.Err), 5), fmt.Sprintf("label entries name label statements of a script of the same file: rejected: %v %s\n  file: %q", r2.Err, firstLine(r2.Panic), both))
+			} else {
+				// header, tables and inline scripts are the same blocks (hoisted data moves behind the other script: not compared)
+				names := []string{"M"}
+				for _, tb := range tables {
+					names = append(names, tb.name)
+				}
+				same := true
+				for _, n := range names {
+					a, _ := blockAfter(res.Out, n)
+					b, _ := blockAfter(r2.Out, n)
+					same = same && strings.Join(a, "\n") == strings.Join(b, "\n")
+				}
+				for _, in := range inlines {
+					a, na := scriptBlock(res.Out, in.name)
+					b, nb := scriptBlock(r2.Out, in.name)
+					same = same && a == b && na == nb
+				}
+				if !same {
+					fail("C08:label-entry-target-defined:output", fmt.Sprintf("the statement's blocks change when the labels its entries name are label statements of another script of the file\n  file: %q", both))
+				}
+			}
+		}
 	}
 	// header
 	head := "M::"
